@@ -21,11 +21,16 @@ SCHEMA = [Opt('int', b'i', 0, 7), Opt('str', b's', 0, b'd'), Opt('intl', b'il', 
           Opt('sec', b'm', F['MULTI'], None, SUB), Opt('bool', b'b', 0, 0), Opt('func', b'fn', func='user:0'),
           # a deprecated option (its notice is a diagnostic of the base text too), a dropped one, a free-form section
           Opt('int', b'old', F['DEPRECATED'], 1), Opt('intl', b'gone', F['DEPRECATED'] | F['DROP'], b'{1}'),
-          Opt('sec', b'kv', F['KEYSTRVAL'], None, [Opt('int', b'lvl', 0, 2)])]
+          Opt('sec', b'kv', F['KEYSTRVAL'], None, [Opt('int', b'lvl', 0, 2)]),
+          Opt('int', b'nc', F['NOCASE'], 3), Opt('sec', b'tn', F['MULTI'] | F['TITLE'] | F['NOCASE'], None, SUB2)]
 
 
 def unknown_item(r, depth):
-    name = r.pick([b'unk', b'zz', b'new_opt', b'"quoted name"', b'x.y', b'unk', b'zz', b'""', b"''", b'${NOSUCHVAR}'])
+    name = r.pick([b'unk', b'zz', b'new_opt', b'"quoted name"', b'x.y', b'unk', b'zz', b'""', b"''", b'${NOSUCHVAR}',
+                   # names that are paths: through a declared section to nothing, through an instance that does not exist
+                   b'sec|zz', b'"m|zz"', b'"m=7|a"', b'"m=zzz|a"', b'sec|pl|zz', b'"in=nosuch|z"', b'"zz|a"', b'"kv|q"',
+                   # case variants of options that carry CFGF_NOCASE themselves, in a case-sensitive context
+                   b'NC', b'Tn', b'TN', b'Nc'])
     c = r.below(12)
     v = lambda: r.pick([b'1', b'word', b'"a b"', b"'q'", b'0x1f', b'true', b'""', b'${HOME}'])
     if c == 0:
